@@ -44,6 +44,9 @@ const (
 	FaultError   = "error"
 	FaultTimeout = "timeout"
 	FaultShort   = "short" // write side: accept part of the bytes, then error
+	// FaultUnexpectedEOF: the transport fails with io.ErrUnexpectedEOF itself
+	// (what crypto/tls reports for a truncated record).
+	FaultUnexpectedEOF = "unexpected-eof"
 )
 
 // ErrInjected is the arbitrary (non-EOF, non-timeout) injected error.
@@ -66,6 +69,8 @@ func FaultErr(kind string) error {
 		return io.EOF
 	case FaultTimeout:
 		return ErrTimeout
+	case FaultUnexpectedEOF:
+		return io.ErrUnexpectedEOF
 	default:
 		return ErrInjected
 	}
